@@ -6,24 +6,24 @@ s=open(p).read()
 start=s.index('| id | harnesses (package) | quick bound | result on the tree as repaired |')
 end=s.index('### 8.4 Findings')
 bounds={
-'C01':'<=2 fields of a 26-entry pool, 2-byte values, bodies none/CL/chunked, 1st/2nd request, direct / inside MITM (plaintext, transparent-TLS), with/without configured header rules',
-'C02':'2 exchanges, <=2 fields, 3 body bytes, 6 statuses, 4 framings incl. HTTP/1.0 origin; 2 events delivered incrementally (chunked or close-delimited origin); response rules, custom reason phrase, HEAD/204/304',
-'C03':'payloads 0..4 each way, 1-byte or whole reads, 3 client kinds; 6 event orders with blocking endpoints; 16386-byte chunk crossing; http / https(model) / socks5 upstream',
-'C04':'header <=14 B, creds 1..2 B, 16 control combinations, 2 requests of 7 kinds, MITM inner requests (plaintext, transparent-TLS), hosts-file alias in symbolic case, 3 deny-domain lists x 8 hosts',
-'C05':'PAC string <=8 B, <=2 redirect rules, CONNECT direct / http / socks5 / unsupported upstream',
-'C06':'64 tables incl. an IPv6 literal; 0..2 client credential lines, upgrade-shaped requests; static / table / PAC-selected upstream',
+'C01':'<=2 fields of a 26-entry pool, 2-byte values, bodies none/CL/chunked, 1st/2nd request, direct / inside MITM (plaintext, transparent-TLS), with/without configured header rules; a request after a locally answered one that carried a body',
+'C02':'2 exchanges, <=2 fields, 3 body bytes, 6 statuses, 4 framings incl. HTTP/1.0 origin; 2 events delivered incrementally (chunked or close-delimited origin); response rules, custom reason phrase, HEAD/204/304; 4 Content-Type spellings for the event stream',
+'C03':'payloads 0..4 each way, 1-byte or whole reads, 3 client kinds; 6 event orders with blocking endpoints; 16386-byte chunk crossing; http / https(model) / socks5 upstream; reads that return data with EOF; connect timeout set / unset',
+'C04':'header <=14 B, creds 1..2 B, 16 control combinations, 2 requests of 7 kinds, MITM inner requests (plaintext, transparent-TLS), hosts-file alias in symbolic case, 3 deny-domain lists x 8 hosts; 16 local literals x 3 target spellings through the connection loop; time frame judged in the machine zone (two-faced model clock)',
+'C05':'PAC string <=8 B, <=2 redirect rules, CONNECT direct / http / socks5 / unsupported upstream; dial retries 1..3 through the real redirect',
+'C06':'128 tables incl. an IPv6 literal; 0..2 client credential lines, upgrade-shaped requests; static / table / PAC-selected upstream; two questions in a row to one matcher',
 'C08':'v2 length 0..40, v1 pool x symbolic ports, 16 garbage bytes, 2 connections, 7 first operations, 2 concurrent callers',
-'C09':'0/2 streams + new one, queues <=2, frames <=8 B; header blocks through the real hpack encoder against symbolic max frame sizes; the relay loop with windows 0..3, 1..3 DATA octets, SETTINGS before/after DATA',
-'C10':'0..2 CONTINUATION, all splits of a 6-byte block, table-size update; two blocks with a dynamic-table reference; windows 0..8, reset behind held-back DATA; the relay loop with 0..2 DATA octets',
+'C09':'0/2 streams + new one, queues <=2, frames <=8 B; header blocks through the real hpack encoder against symbolic max frame sizes; the relay loop with windows 0..3, 1..3 DATA octets, SETTINGS before/after DATA; MAX_FRAME_SIZE lowered or raised from a symbolic earlier value',
+'C10':'0..2 CONTINUATION, all splits of a 6-byte block, table-size update; two blocks with a dynamic-table reference; windows 0..8, reset behind held-back DATA; the relay loop with 0..2 DATA octets; chunk splitting with 1..3-byte limits and buffer reuse',
 'C11':'4 shutdown placements x GET/CONNECT x HTTP/1.0|1.1; 3 connections nested; shutdown during a tunnel; Shutdown on its own goroutine; drain context for symbolic timeouts',
-'C12':'16 error kinds x 3 wrappings; 4 fault points, mid-body x {CL, chunked} x {plain, event-stream}; cut CONNECT rejection; 4 junk bytes after 8 prefixes',
-'C13':'2 exchanges of 8 kinds; the configured hooks; 1..3 closes; 1..3 failing transfers; 1..3 accepts / 1..2 dials with retries and redirect; 5 upstream CONNECT replies',
-'C15':'symbolic timeouts < 2^40 ns; 2 requests + end-of-stream; slow origin; stalled peer on a second goroutine; limit wiring with/without MITM',
+'C12':'16 error kinds x 3 wrappings; 4 fault points, mid-body x {CL, chunked} x {plain, event-stream}; cut CONNECT rejection; 4 junk bytes after 8 prefixes; rejected client CONNECT with CL / chunked body; bare 101 reply',
+'C13':'2 exchanges of 8 kinds; the configured hooks; 1..3 closes; 1..3 failing transfers; 1..3 accepts / 1..2 dials with retries and redirect; 5 upstream CONNECT replies; terminate-TLS handshake failure; per-method in-flight series when the transport\'s CONNECT is rejected',
+'C15':'symbolic timeouts < 2^40 ns; 2 requests + end-of-stream; slow origin; stalled peer on a second goroutine; limit wiring with/without MITM; MITM: wait for the hello under the idle limit, handshake deadline vs clock readings',
 'C16':'rule <=6 B, <=2 rules',
-'C17':'lists <=2 of 15, host <=4 B',
+'C17':'lists <=2 of 18 (anchored alternation, open \\Q quotation, anchored empty-host rule among them), host <=4 B',
 'C18':'<=2 lines x <=10 B, boundary 4 hex; own element sent back through the connection loop in 5 shapes',
-'C19':'passwords 1..3 B; 5 failing-tunnel scenarios x 3 log modes x 2 credential sources; 4 log modes x 2 logger kinds; 5 credential-table collisions; debug log of a successful tunnel',
-'C20':'any limits < 2^53, 2 connections',
+'C19':'passwords 1..3 B; 5 failing-tunnel scenarios x 3 log modes x 2 credential sources; 4 log modes x 2 logger kinds; 5 credential-table collisions; debug log of a successful tunnel; key-pair start-up error for two inline keys',
+'C20':'any limits < 2^53, 2 connections; the first optionally closed before the second transfers; wait context not done, not bounded',
 }
 result={'C10':'holds; 1 open finding','C16':'holds; 1 open finding','C19':'holds (channels the executor reaches; the real binary\'s start-up dump and /configz are outside)','C20':'holds (glue only)'}
 rows=['| id | harnesses (package) | quick bound | result on the tree as repaired |','|---|---|---|---|']
